@@ -5,7 +5,7 @@ package record
 
 // Genesis import re-adds the exported records through AddRecord, starting from an empty store.
 // (ids of re-imported records are recomputed with counters 0..n-1: see C12, known finding.)
-//@ func InitGenesis
+//@ func InitGenesis(ctx, k, data)
 //@   property C19
 //@   requires !has(counter) && (forall i:Bytes :: !has(records, i))
 //@   requires len(data.Records) < 4294967295
@@ -17,7 +17,7 @@ package record
 //@ end
 
 // Export lists the stored records in key (= id) order; ids and the counter are not part of the genesis state.
-//@ func ExportGenesis
+//@ func ExportGenesis(ctx, k)
 //@   property C12
 //@   returns gs
 //@   invariant #1 pos:    0 <= it_idx && it_idx <= it_n && len(l_records) == it_idx
